@@ -49,7 +49,8 @@ def gen_case(rng, directed=None):
             inputs.append({"wrote": 1, "at": t})
             trace.append(("wrote", t))
         elif kind == "ping":
-            ctx = [rng.randrange(256) for _ in range(rng.choice([0, 0, 1, 8, 16, 17, 40]))]
+            # context sizes incl. the short/long frame boundary of the PONG (body = 5 + context: 250 -> 255, 251 -> 256)
+            ctx = [rng.randrange(256) for _ in range(rng.choice([0, 0, 1, 8, 16, 17, 40, 248, 250, 251, 252, 300]))]
             inputs.append({"net": [E.raw(E.ping(rng.randrange(65536), ctx))], "at": t})
             trace.append(("ping", t, ctx))
         elif kind == "pong":
@@ -86,6 +87,7 @@ def directed_cases(rng):
             [("tick", 2000), ("tick", 999), ("pong", 0), ("tick", 1), ("deadline", 0)],
             [("wrote", 900), ("tick", 100), ("tick", 899), ("tick", 1), ("wrote", 499), ("tick", 500), ("tick", 1)],
             [("tick", 5000), ("ping", 100), ("badcmd", 100), ("app", 0), ("wrote", 100), ("tick", 200), ("tick", 2500), ("tick", 70000)],
+            [("ping", 10), ("ping", 10), ("ping", 10), ("ping", 10), ("ping", 10), ("ping", 10), ("data", 5), ("ping", 10), ("ping", 10)],
         ]
     return [gen_case(rng, d) for d in out]
 
